@@ -367,14 +367,25 @@ Theorem C01_code_decodes : forall c, code_ok c -> R_of (fdec c) = code_val c /\ 
 Proof. exact fdec_R. Qed.
 Print Assumptions C01_code_decodes.
 
-Theorem C01_code_order_is_time_order : forall c1 c2,
-  code_ok c1 -> code_ok c2 -> c1 <= c2 -> (R_of (fdec c1) <= R_of (fdec c2))%R.
-Proof. exact fdec_mono. Qed.
-Print Assumptions C01_code_order_is_time_order.
+Theorem C01_code_order_iff : forall c1 c2,
+  code_ok c1 -> code_ok c2 -> (c1 <= c2 <-> (R_of (fdec c1) <= R_of (fdec c2))%R).
+Proof. exact code_order_iff. Qed.
+Print Assumptions C01_code_order_iff.
+
+Theorem C01_code_eq_iff : forall c1 c2,
+  code_ok c1 -> code_ok c2 -> (c1 = c2 <-> R_of (fdec c1) = R_of (fdec c2)).
+Proof. exact code_eq_iff. Qed.
+Print Assumptions C01_code_eq_iff.
 
 Theorem C01_code_zero_is_time_zero : forall c, code_ok c -> (code_val c = 0%R <-> c = 0).
 Proof. exact code_val_zero_iff. Qed.
 Print Assumptions C01_code_zero_is_time_zero.
+
+(** so the range hypothesis [time_ok] of the theorems above is a condition on the code alone *)
+Theorem C01_time_ok_of_code : forall c,
+  code_ok c -> (Rabs (code_val c) <= bpow radix2 40)%R -> time_ok c.
+Proof. exact time_ok_code. Qed.
+Print Assumptions C01_time_ok_of_code.
 
 (** tempo-relative quantization returns the step nearest to the EXACT position t*spq*qpm/60 (all four
     roundings accounted for), outside a 2^-49-relative neighbourhood of a half-step boundary *)
